@@ -1,6 +1,7 @@
 package c05
 
 import (
+	"encoding/binary"
 	"math/big"
 	"testing"
 
@@ -96,6 +97,42 @@ func regressions() []regress {
 			c.Tx.Gas = 600000
 			return c
 		}},
+		{"ClaimThenRevert", []string{fpClaimRevert}, func() *evmgen.Case {
+			// the contract claims its unlocked tranche (777) and then reverts: same root cause as the
+			// C12 finding (ClaimCoinbaseLockup deletes from the block batch, a revert restores only
+			// the in-memory map)
+			in := make([]byte, 53)
+			copy(in, u.Miners[0].Bytes())
+			copy(in[20:], u.ForeignQuai[0].Bytes())
+			in[40] = 1
+			binary.BigEndian.PutUint32(in[41:], 1)
+			binary.BigEndian.PutUint64(in[45:], 21000)
+			c := handCase(post, allEligible, big.NewInt(0), func(a *evmgen.Asm) {
+				lockupCall(a, in, 100000)
+				a.Op(vm.POP).Push(0).Push(0).Op(vm.REVERT)
+			})
+			c.Pre.Lockups = []evmgen.LockupRec{{Owner: u.Contracts[0], Miner: u.Miners[0], LockupByte: 1, Epoch: 1, Balance: big.NewInt(777), Unlock: 100, Elements: 2, Delegate: common.Zero}}
+			return c
+		}},
+		{"ClaimInRevertedInnerFrame", []string{fpClaimRevert}, func() *evmgen.Case {
+			// contract0 calls itself; the inner frame claims and reverts, the transaction succeeds
+			in := make([]byte, 53)
+			copy(in, u.Miners[0].Bytes())
+			copy(in[20:], u.ForeignQuai[0].Bytes())
+			in[40] = 1
+			binary.BigEndian.PutUint32(in[41:], 1)
+			binary.BigEndian.PutUint64(in[45:], 21000)
+			c := handCase(post, allEligible, big.NewInt(0), func(a *evmgen.Asm) {
+				inner := a.NewLabel("inner")
+				a.Op(vm.CALLDATASIZE).PushLabel(inner).Op(vm.JUMPI)
+				a.Push(0).Push(0).Push(1).Push(0).Push(0).Op(vm.ADDRESS, vm.GAS, vm.CALL, vm.POP, vm.STOP)
+				a.Label(inner)
+				lockupCall(a, in, 100000)
+				a.Op(vm.POP).Push(0).Push(0).Op(vm.REVERT)
+			})
+			c.Pre.Lockups = []evmgen.LockupRec{{Owner: u.Contracts[0], Miner: u.Miners[0], LockupByte: 1, Epoch: 1, Balance: big.NewInt(777), Unlock: 100, Elements: 2, Delegate: common.Zero}}
+			return c
+		}},
 	}
 }
 
@@ -114,7 +151,9 @@ func TestC05_RegressKnown(t *testing.T) {
 			if err != nil {
 				t.Fatalf("HARNESS: %v", err)
 			}
+			reportKnown = true
 			cr := checkCase(t, "regress", c, o)
+			reportKnown = false
 			stats.Case("regress", rg.name, true, append(cr.labels, "regress:"+rg.name)...)
 			seen := map[string]bool{}
 			for _, fp := range cr.fps {
